@@ -59,6 +59,7 @@ static var ExcA = CelloEmpty(ExcA);
 static var ExcB = CelloEmpty(ExcB);
 static var ExcC = CelloEmpty(ExcC);
 static var ExcN = CelloEmpty(ExcN);   /* never thrown */
+static var ExcM = CelloEmpty(ExcM);   /* never thrown either (deep mode needs two distinct non-matching filter entries) */
 
 /*
 ** Exception objects.  objs=types (default): the singleton type objects above are both thrown
@@ -74,27 +75,27 @@ static int Exv_Cmp(var self, var obj) {
 }
 static int Exv_Show(var self, var out, int pos) {
   struct Exv* a = self;
-  static const char* nm[] = { "Exc?", "ExcA", "ExcB", "ExcC", "ExcN" };
-  return print_to(out, pos, "%s", $S((char*)nm[(a->code >= 1 && a->code <= 4) ? a->code : 0]));
+  static const char* nm[] = { "Exc?", "ExcA", "ExcB", "ExcC", "ExcN", "ExcM" };
+  return print_to(out, pos, "%s", $S((char*)nm[(a->code >= 1 && a->code <= 5) ? a->code : 0]));
 }
 static var Exv = Cello(Exv, Instance(Cmp, Exv_Cmp), Instance(Show, Exv_Show, NULL));
 
 enum { OBJ_TYPES = 0, OBJ_STRUCT = 1, OBJ_STRING = 2, OBJ_INT = 3 };
 static int objs_mode = OBJ_TYPES;
 static var TA, TB, TC;           /* thrown */
-static var FA, FB, FN;           /* listed in filters (FN equals nothing that is thrown) */
+static var FA, FB, FN, FM;       /* listed in filters (FN and FM equal nothing that is thrown) */
 
 static var mk_value(int code, int payload) {
-  static const char* nm[] = { "Exc?", "ExcA", "ExcB", "ExcC", "ExcN" };
+  static const char* nm[] = { "Exc?", "ExcA", "ExcB", "ExcC", "ExcN", "ExcM" };
   if (objs_mode == OBJ_STRUCT) { struct Exv* v = new_raw(Exv); v->code = code; v->payload = payload; return v; }
   if (objs_mode == OBJ_STRING) return new_raw(String, $S((char*)nm[code]));
   return new_raw(Int, $I(code));
 }
 
 static void objs_setup(void) {
-  if (objs_mode == OBJ_TYPES) { TA = FA = ExcA; TB = FB = ExcB; TC = ExcC; FN = ExcN; return; }
+  if (objs_mode == OBJ_TYPES) { TA = FA = ExcA; TB = FB = ExcB; TC = ExcC; FN = ExcN; FM = ExcM; return; }
   TA = mk_value(1, 101); TB = mk_value(2, 102); TC = mk_value(3, 103);
-  FA = mk_value(1, 201); FB = mk_value(2, 202); FN = mk_value(4, 204);
+  FA = mk_value(1, 201); FB = mk_value(2, 202); FN = mk_value(4, 204); FM = mk_value(5, 205);
 }
 
 /* the value of a thrown object must still be what was thrown (nothing may have written to it) */
@@ -149,10 +150,10 @@ static int objid(var o) {
   if (o == TA) return value_intact(o, 1) ? 1 : 8;
   if (o == TB) return value_intact(o, 2) ? 2 : 8;
   if (o == TC) return value_intact(o, 3) ? 3 : 8;
-  return o == FN ? 4 : o == FA ? 5 : o == FB ? 6 : 9;
+  return o == FN ? 4 : o == FA ? 5 : o == FB ? 6 : o == FM ? 7 : 9;
 }
 static const char* objname(int id) {
-  static const char* nm[] = { "none", "A", "B", "C", "filter-object-N", "filter-object-A-not-the-thrown-A", "filter-object-B-not-the-thrown-B", "?", "thrown-object-with-altered-value", "other" };
+  static const char* nm[] = { "none", "A", "B", "C", "filter-object-N", "filter-object-A-not-the-thrown-A", "filter-object-B-not-the-thrown-B", "filter-object-M", "thrown-object-with-altered-value", "other" };
   return (id >= 0 && id <= 9) ? nm[id] : "?";
 }
 
@@ -488,7 +489,7 @@ static void classify(char* label, size_t n, const struct ev* act, int nact, int 
   const struct ev* e = &EX[i]; const struct ev* a = &act[i];
   if (ek && ak && ek == ak && e->a == a->a && e->b == a->b && ek != 'N' && ek != 'Z' && ek != 'U') sym = "nesting-depth-mismatch";
   else if (ek == ak && (ek == 'N' || ek == 'Z')) sym = "nesting-depth-not-restored";
-  else if (ek == 'H' && ak == 'H' && e->a == a->a && a->b >= 4 && a->b <= 6) sym = "handler-bound-to-filter-object-not-the-thrown-object";
+  else if (ek == 'H' && ak == 'H' && e->a == a->a && a->b >= 4 && a->b <= 7) sym = "handler-bound-to-filter-object-not-the-thrown-object";
   else if (ek == 'H' && ak == 'H' && e->a == a->a && a->b == 8) sym = "thrown-object-value-altered";
   else if (ek == 'H' && ak == 'H' && e->a == a->a) sym = "handler-bound-wrong-object";
   else if ((ek == 'X' && ak == 'X') || (ek == 'U' && ak == 'U')) sym = "propagated-wrong-object";
@@ -822,9 +823,11 @@ static void deep_rec(int level) {
   if (level == DC.T1 && DC.tf == 0) {
     try { DEEP_BODY } catch (e_) { DEEP_HAND }
   } else {
-    /* the matching object is listed second, behind one that never matches */
+    /* the matching object is listed second, behind one that never matches.  The two entries are always
+    ** distinct objects: a Tuple holding the same object twice cannot be iterated (known finding D16 of
+    ** C11), so `catch (e in X, X)` would not terminate - not a C07 matter */
     var fa_ = FN;
-    var fb_ = level == DC.T1 ? deep_filter(DC.x) : (level == DC.T2 && DC.rt) ? deep_filter(3 - DC.x) : FN;
+    var fb_ = level == DC.T1 ? deep_filter(DC.x) : (level == DC.T2 && DC.rt) ? deep_filter(3 - DC.x) : FM;
     try { DEEP_BODY } catch (e_ in fa_, fb_) { DEEP_HAND }
   }
   { int d_ = (int)len(EXC); if (d_ != level) deep_bad('x', level, d_); }
@@ -912,7 +915,7 @@ static void deep_run(void) {
   for (int i = 0; i < DS.nh && i < 8; i++) {
     if (i >= eh) DEEP_VIOL(DS.h[i].level == DS.h[i ? i - 1 : 0].level ? "handler-ran-twice" : "non-matching-handler-ran", "handler of level %d ran (bound %s) but should not", DS.h[i].level, objname(DS.h[i].obj));
     if (DS.h[i].level != ehl[i]) DEEP_VIOL("wrong-handler-ran", "handler of level %d ran, expected the handler of level %d", DS.h[i].level, ehl[i]);
-    if (DS.h[i].obj != eho[i]) DEEP_VIOL(DS.h[i].obj >= 4 && DS.h[i].obj <= 6 ? "handler-bound-to-filter-object-not-the-thrown-object" : "handler-bound-wrong-object", "handler of level %d bound %s, thrown was %s", DS.h[i].level, objname(DS.h[i].obj), objname(eho[i]));
+    if (DS.h[i].obj != eho[i]) DEEP_VIOL(DS.h[i].obj >= 4 && DS.h[i].obj <= 7 ? "handler-bound-to-filter-object-not-the-thrown-object" : "handler-bound-wrong-object", "handler of level %d bound %s, thrown was %s", DS.h[i].level, objname(DS.h[i].obj), objname(eho[i]));
     if (DS.h[i].depth != ehl[i]) DEEP_VIOL("nesting-depth-mismatch", "len(current(Exception)) = %d in the handler of level %d, expected %d", DS.h[i].depth, DS.h[i].level, ehl[i]);
   }
   if (DS.nh < eh) DEEP_VIOL("target-handler-did-not-run", "%d handler(s) ran, expected %d (level %d)", DS.nh, eh, ehl[DS.nh]);
